@@ -3,6 +3,8 @@
 package dmap
 
 import (
+	"time"
+
 	"github.com/olric-data/olric/internal/cluster/partitions"
 	"github.com/olric-data/olric/pkg/storage"
 )
@@ -110,4 +112,20 @@ func (s *Service) VerifCompactFragment(kind partitions.Kind, name string, partID
 		}
 	}
 	return n
+}
+
+// VerifTriggerCompaction runs the REAL compaction pass of this member (triggerCompaction: every partition, primary and
+// backup fragments, what compactionWorker does on every tick) and reports whether it returned within the timeout.
+func (s *Service) VerifTriggerCompaction(timeout time.Duration) bool {
+	done := make(chan struct{})
+	go func() {
+		s.triggerCompaction()
+		close(done)
+	}()
+	select {
+	case <-done:
+		return true
+	case <-time.After(timeout):
+		return false
+	}
 }
